@@ -1,6 +1,8 @@
 import Model
 import Model.Wire
 import Model.Geometry
+import Model.Canon
+import Model.Imports
 /-!
 # Line-protocol driver: one JSON case per input line, one JSON verdict per output line.
 -/
@@ -206,7 +208,9 @@ def runGeo (j : Json) : Json :=
       ("overlaps", Json.arr (g.overlaps.map (fun (a, b) => Json.arr #[num a, num b])).toArray),
       ("bad_wires", Json.arr (g.badWires.map (fun (k, why) => Json.mkObj [("wire", k), ("why", why)])).toArray),
       ("unpowered", Json.arr (g.unpowered.map num).toArray),
-      ("pole_components", g.poleComponents), ("n_poles", g.nPoles), ("entities", ents)]
+      ("pole_components", g.poleComponents), ("n_poles", g.nPoles),
+      ("connectable", Json.arr (g.connectable.map (fun (a, b) => Json.arr #[num a, num b])).toArray),
+      ("unpowered_inside", Json.arr (g.unpoweredInside.map num).toArray), ("entities", ents)]
 
 def handle (line : String) : String :=
   match Json.parse line with
@@ -216,6 +220,21 @@ def handle (line : String) : String :=
     | "sem" => (runSem j).compress
     | "wf" => (runWf j).compress
     | "geo" => (runGeo j).compress
+    | "imports" =>
+      let files : List (String × String) := match jgetD j "files" with
+        | .obj kvs => kvs.toList.map (fun (k, v) => (k, v.getStr?.toOption.getD ""))
+        | _ => []
+      let search := ((jgetD j "search").getArr?.toOption.getD #[]).toList.map (fun x => x.getStr?.toOption.getD "")
+      let base := (jgetD j "base").getStr?.toOption
+      let r := expand { files } search (files.length + 2) (jstrD j "source") base []
+      (Json.mkObj [("id", jgetD j "id"), ("text", r.text), ("processed", Json.arr (r.processed.map Json.str).toArray),
+        ("error", match r.error with | some e => Json.str e | none => Json.null)]).compress
+    | "canon" =>
+      (match parseBlueprint (jgetD j "printed") with
+       | .error e => Json.mkObj [("id", jgetD j "id"), ("blueprint_error", e)]
+       | .ok bp => Json.mkObj [("id", jgetD j "id"), ("canon", canonical bp),
+           ("kinds", Json.mkObj (bp.ents.toList.map (fun (e : BpEntity) => (toString e.number, Json.str (kindStr e.kind))))),
+           ("wires", Json.arr (bp.wires.map (fun (w : BpWire) => Json.arr #[toJson w.e1, toJson w.c1, toJson w.e2, toJson w.c2])))]).compress
     | m => (Json.mkObj [("id", jgetD j "id"), ("error", s!"unknown mode {m}")]).compress
 
 partial def loop (h : IO.FS.Stream) (out : IO.FS.Stream) : IO Unit := do
